@@ -456,8 +456,15 @@ def as_dtype(rng, arr, kind):
     import numpy
     a = arr.astype({'float64': numpy.float64, 'float32': numpy.float32, 'int64': numpy.int64,
                     'int32': numpy.int32, 'complex128': numpy.complex128}[kind])
-    if rng.random() < 0.25:
+    r = rng.random()
+    if r < 0.25:
         a = numpy.asfortranarray(a)
+    elif r < 0.4 and a.ndim >= 1 and a.size:
+        # a non-contiguous view (every second entry of an array twice as large in every direction)
+        big = numpy.full(tuple(2 * d for d in a.shape), 77, dtype=a.dtype)
+        view = big[tuple(slice(None, None, 2) for _ in a.shape)]
+        view[...] = a
+        a = view
     return a
 
 
@@ -627,7 +634,7 @@ def stream_norms(ctx, of, lcu, gon):
                              'dtype': str(H.one_body.dtype)})
     n3 = 0
 
-    def query_one_norm(const, h, g, kind_h, kind_g, via, symmetric, extra=None, mol=None):
+    def query_one_norm(const, h, g, kind_h, kind_g, via, symmetric, extra=None, mol=None, arrays=None):
         """get_one_norm_int(_woconst) (or the MolecularData wrappers) against the Model and the Jordan-Wigner oracle"""
         nonlocal n3
         n = h.shape[0]
@@ -638,8 +645,13 @@ def stream_norms(ctx, of, lcu, gon):
         else:
             ckind = rng.choice(['float', 'float', 'float64', 'int' if float(const).is_integer() else 'float'])
             c_arg = numpy.float64(const) if ckind == 'float64' else int(const) if ckind == 'int' else const
-            a, e1 = call(gon.get_one_norm_int, c_arg, as_dtype(rng, h, kind_h), as_dtype(rng, g, kind_g))
-            w, e2 = call(gon.get_one_norm_int_woconst, as_dtype(rng, h, kind_h), as_dtype(rng, g, kind_g))
+            if arrays is not None:
+                # the caller's own array objects (the same objects are passed to both functions, and again after edits)
+                a, e1 = call(gon.get_one_norm_int, c_arg, arrays[0], arrays[1])
+                w, e2 = call(gon.get_one_norm_int_woconst, arrays[0], arrays[1])
+            else:
+                a, e1 = call(gon.get_one_norm_int, c_arg, as_dtype(rng, h, kind_h), as_dtype(rng, g, kind_g))
+                w, e2 = call(gon.get_one_norm_int_woconst, as_dtype(rng, h, kind_h), as_dtype(rng, g, kind_g))
         case = {'fn': 'get_one_norm_int', 'constant': const, 'one_body_integrals': h.tolist(), 'two_body_integrals': g.tolist(),
                 'dtypes': [kind_h, kind_g], 'via': via, 'constant_type': ckind, 'symmetric': symmetric}
         if extra:
@@ -704,8 +716,9 @@ def stream_norms(ctx, of, lcu, gon):
         n = rng.choice([1, 2, 2, 2, 3, 3, budget(t, 4, 5)])
         # integer-valued integrals are also given as numpy integer arrays (the accumulators of the code must not
         # inherit the integer dtype: 1/2 * g would be truncated), dyadic ones as float64 / float32
-        kind_h = rng.choice(['float64', 'float64', 'int64', 'int32', 'float32'])
-        kind_g = rng.choice([kind_h, kind_h, 'float64', 'int64'])
+        # complex128: complex-typed arrays holding real integrals
+        kind_h = rng.choice(['float64', 'float64', 'int64', 'int32', 'float32', 'complex128'])
+        kind_g = rng.choice([kind_h, kind_h, 'float64', 'int64', 'complex128'])
         ints = kind_h.startswith('int') or kind_g.startswith('int') or rng.random() < 0.2
         vals = VALS_INT if ints else VALS
         if not ints and kind_h == 'float64' and kind_g == 'float64' and rng.random() < 0.4:
@@ -734,7 +747,19 @@ def stream_norms(ctx, of, lcu, gon):
             import types
             mol = types.SimpleNamespace(nuclear_repulsion=const, one_body_integrals=as_dtype(rng, h, kind_h),
                                         two_body_integrals=as_dtype(rng, g, kind_g))
-        query_one_norm(const, h, g, kind_h, kind_g, via, symmetric, {'coulomb_type': True} if coulomb else None, mol=mol)
+        arrays = None
+        if via == 'int' and kind_h == 'float64' and kind_g == 'float64' and rng.random() < 0.4:
+            arrays = (as_dtype(rng, h, kind_h), as_dtype(rng, g, kind_g))
+        query_one_norm(const, h, g, kind_h, kind_g, via, symmetric, {'coulomb_type': True} if coulomb else None, mol=mol,
+                       arrays=arrays)
+        if arrays is not None:
+            # the caller's arrays edited in place and passed again (same objects): answers must follow the new content
+            p_ = rng.randrange(n)
+            arrays[0][p_, p_] += 1.5
+            arrays[1][p_, p_, p_, p_] -= 0.75
+            s.count('get_one_norm:arrays-edited-in-place')
+            query_one_norm(const, numpy.array(arrays[0]), numpy.array(arrays[1]), kind_h, kind_g, via, symmetric,
+                           {'edited_in_place': True}, arrays=arrays)
         if mol is not None and kind_h == 'float64' and kind_g == 'float64' and rng.random() < 0.5:
             # the same object edited in place is answered according to its new content
             p_ = rng.randrange(n)
